@@ -1,6 +1,7 @@
 import ElaVerif.Model.Withdraw
 import ElaVerif.Lemmas.Withdraw
 import ElaVerif.Gen.C33
+import ElaVerif.Model.Index
 /-!
 # C33 — side-chain withdrawals need the arbiter quorum and are single-use
 
@@ -396,6 +397,25 @@ theorem C33_pool_single_use (txs : List Tx) (hv : ∀ t ∈ txs, t.pver = 0 ∨ 
 
 example : ((([⟨1, [], [1, 2], [], [true], []⟩, ⟨1, [], [2], [], [true], []⟩, ⟨2, [], [3], [], [true], []⟩] : List Tx).foldl
     poolAdd ([], [])).2.map (·.outputHashes)) = [[3], [1, 2]] := by decide
+
+/-- Tie to the index model of C13 (`ElaVerif/Model/Index.lean`, whose connect/disconnect theorems cover the
+    save and rollback processors): the hashes this model says a withdrawal records are exactly the hashes
+    C13's `saveTx` / `rollbackTx` put into / delete from the Tx3 index. -/
+def toIndexTx (t : Tx) : ElaVerif.Index.Tx :=
+  { id := 0, kind := .withdraw, pver := t.pver, ins := [],
+    outs := t.outputHashes.map (fun h => { addr := 0, value := 0, wd := some h }),
+    phashes := t.payloadHashes }
+
+theorem C33_recorded_eq_C13_wdHashes (t : Tx) : ElaVerif.Index.wdHashes (toIndexTx t) = recorded t := by
+  unfold ElaVerif.Index.wdHashes recorded toIndexTx
+  simp only [List.filterMap_map]
+  split
+  · rfl
+  · split
+    · induction t.outputHashes with
+      | nil => rfl
+      | cons a l ih => simp [List.filterMap, ih]
+    · rfl
 
 /-- after `SchnorrStartHeight` only V2 is accepted -/
 theorem C33_only_schnorr_after_start (c : Cfg) (l : Ledger) (height : Nat) (t : Tx)
